@@ -113,6 +113,14 @@ func runDomains(t *testing.T, rc *RunCtx) {
 				e = GenEntry(j, d, uniq)
 			}
 			e.Domain = d
+			if (kind == "gen" || kind == "multi") && ch.Pick(6, 0) == 5 {
+				// The 64 bytes of an object root followed by a slashable domain, cut into data and domain somewhere else.
+				buf := append(append([]byte{}, h32("root", uniq)...), MkDomain([][4]byte{DomAttester, DomProposer}[ch.Pick(2, 0)], []uint64{0, uniq}[ch.Pick(2, 0)])...)
+				cut := []int{31, 33, 28, 36, 30, 34, 16, 48, 4, 60}[ch.Pick(10, 0)]
+				e.Data, e.Domain = buf[:cut:cut], append([]byte{}, buf[cut:]...)
+				classes[len(classes)-1] = "shifted-boundary"
+				rc.Stats.Inc("probe_shifted_boundary_requests", 1)
+			}
 			e.ByKey = ch.Pick(3, 0) == 1
 			o.Entries = append(o.Entries, e)
 		}
